@@ -2,6 +2,15 @@
 import itertools
 import common as C
 
+PROPERTIES = ["C08"]
+MANIFEST = {
+    "C08": {
+        "technique": "Lean 4 proof (refinement of a checked-memory model of Buffer to a byte queue, invariant by induction over operation lists) + differential correspondence model vs real Buffer.hpp",
+        "text": "Theorems over all operation histories of the Lean model of Buffer (byte-queue refinement, terminator, no out-of-range access); the model is tied to the current Buffer.hpp on every run by executing identical op lines on both (exhaustive small scope + random histories, ASan/UBSan, guard bytes) and by an independent reference byte queue.",
+        "note": "Trusted: Lean kernel + the three standard axioms; hand translation of Buffer.hpp into the model (validated by the correspondence run, not proved); checked-memory abstraction (separate blocks, no pointer arithmetic across blocks); allocation never fails; attached ranges are used by one buffer at a time.",
+        "design_ref": "DESIGN.md 3/C08",
+    }
+}
 PROPS = ["Nstd.Buffer.Props"]
 DRIVER = "drv_buffer"
 REGLEN = [8, 5]
